@@ -4,13 +4,13 @@ package main
 // chosen status and body; then every lookup a caller can make on the response.
 
 import (
-	"net/http/httptest"
-	"net/url"
 	"bytes"
 	"fmt"
 	"io"
 	"math/rand"
 	"net/http"
+	"net/http/httptest"
+	"net/url"
 	"strings"
 
 	"github.com/ipld/go-ipld-prime/datamodel"
